@@ -65,7 +65,9 @@ claim('C01',
       'dim, rank as the length the functional accepts for that field (W3); no dtype test is constantly false (K3); the ball map '
       'theta*h(r) has norm r*h(r) < 1 for EVERY theta, decided exactly on the polynomial den - r*num (RB1); in the 7 batched maps no operation combines arrays whose batch axis sits '
       'at different broadcast positions (SH1 shape inference) and every Euler-recursion reshape has the '
-      'asked number of columns for every admissible block width incl. rank==dim (SH2); NumPy and PyTorch arms '
+      'asked number of columns for every admissible block width incl. rank==dim (SH2); an orthonormalisation M @ F factorises exactly M^dagger M '
+      'with no regularisation term or spectrum floor (W5); a batched literal einsum is its unbatched sibling plus the batch leg (W6); every '
+      'eigsh call names the algebraic end it wants (K5); the hand-written softplus evaluates exp at a non-positive argument (F4); NumPy and PyTorch arms '
       'of 18 functional maps are the same computation (B1). Membership for the other manifolds (unit norm, PSD, X^dagger X = I, '
       'simplex, interval) for all theta is value-level and NOT decided.',
       'Trusted: role table {cayley_order->order, euler_with_phase->with_phase}; exact polynomial arithmetic over Q with //2 rewritten '
@@ -101,11 +103,13 @@ claim('C12',
       'rho (in|in\')), interpreting reshape, literal transpose, .T, .conj(), @, kron and literal einsum lists on axis labels, with '
       'contractions required to pair identical roles (X1) - a compensated slip that round-trips is a type error here because every '
       'function is typed against the convention, not against its inverse; the three built-in noise channels are trace preserving '
-      'for EVERY rate, symbolically (TP); NumPy/PyTorch arms agree (B1); entropy formulas guard 0*log 0 (F1). Contractivity, '
+      'for EVERY rate, symbolically (TP), and are not memoised (O3: every request returns a fresh array); a probe matrix handed to a user '
+      'channel callable is allocated per call (AL2: identity-like callables may return their argument); spectral reconstructions V f(D) V^dagger '
+      'conjugate the right factor (HM1, incl. .mT vs .mH); NumPy/PyTorch arms agree (B1); entropy formulas guard 0*log 0 (F1). Contractivity, '
       'fidelity and entropy inequalities are value-level and NOT decided.',
       'Trusted: the declared conventions, read from the module\'s own comments; size symbols din != dout.',
       'abstract interpretation of array plumbing over axis-role labels with symbolic sizes; exact polynomial arithmetic for Kraus weights',
-      'DESIGN.md 4 (X, B), 5 C12')
+      'DESIGN.md 4 (X, B, AL2, HM1, O3), 5 C12')
 claim('C13',
       'Decides finiteness and the "every parameter point is a decomposition" structure: the closed forms have no unguarded 0*log 0 '
       '(F1) and clamp sqrt(1-C^2) for a concurrence that rounds above 1 (F2); in the EOF, concurrence and linear-entropy models the '
@@ -152,7 +156,10 @@ claim('C03',
       'relabelling idiom with operator legs ordered (fresh/output, chosen/input) - op, not op^T, is applied (R1, symbolic typing of '
       'the list-building idioms; a conditional conjugate must inspect the operator itself; targets of a controlled gate are relabelled '
       'by their position among the non-control qubits); the target tuple recorded by every builder keeps the caller\'s order (D5); '
-      'shift_qubit_index_ covers every kind (D3); no cached function hands out a shared Circuit (O2). '
+      'shift_qubit_index_ covers every kind (D3); no cached function hands out a shared Circuit (O2); the state / density-matrix primitives '
+      'never store into (a view of) an argument (PU1, alias analysis over 100+ functions); no query method of Circuit is memoised in an '
+      'attribute (H5: gates are shared mutable objects); inner_product_psi0_O_psi1 applies the factors of a term to the ket in reversed '
+      'order (IP1). '
       'The control-subspace slicing (reduce_shape_index arithmetic) and marginal probabilities are value-level and NOT decided.',
       'Trusted: canonical gate matrices in sa/gateval.py; the role patterns of D1. kraus gates have no dispatch arm by the '
       "source's own TODO and are excluded.",
@@ -164,7 +171,9 @@ claim('C04',
       'Knill-Laflamme adjoint sweep over the reversed sequence and forward twins alpha-equivalent (A2); += accumulation for shared '
       'slots (A3); backward return arity / save-restore arity for all 5 autograd.Function classes (A4); once_differentiable where '
       'backward leaves torch (A5); backward dispatches to the *_grad twin of the forward primitive (D1); the operator-gradient contraction returns legs '
-      '(chosen, fresh) = d/d op[row, col] (R1); the 0/0 mask of the sqrtm backward indexes with the batch column of its nonzero table (A6); '
+      '(chosen, fresh) = d/d op[row, col] (R1); the 0/0 mask of the sqrtm backward indexes with the batch column of its nonzero table (A6); the flat-parameter bridge clears .grad '
+      'before the backward pass (A7); the custom-backward matrix logarithm is selected whenever the tensor whose log is taken requires grad '
+      '(A8); the fresh legs of the op_grad contraction are listed in the order of `index`, not in qubit-position order (R1); '
       'parametrised gate matrices agree across backends (B1). That the accumulated '
       'numbers equal the derivative (Sylvester backward, Pade logm) is value-level and NOT decided.',
       'Trusted: the adjoint rule templates; torch.autograd.Function API contract.',
@@ -189,12 +198,14 @@ claim('C07',
       'resets the memoised tableau on every path (H1, flow-sensitive typestate over discovered memo/source fields), so a query '
       'reflects all gates appended so far; recorder keys, tableau table, universal-circuit table and random-gate lists agree and '
       'each key maps to the operator it names, by literal matrix evaluation (H2); the lazy accumulation composes in an order that '
-      'is U^dagger P U (H3 parity of traversal direction and multiply operand order); cached tableaux are never mutated (O1); '
+      'is U^dagger P U (H3 parity of traversal direction and multiply operand order; the gate tableau is always embedded through the index '
+      'array, which is held in a wide integer dtype); no constructor has an escaping mutable default, so two circuits never share a history '
+      '(MD1); cached tableaux are never mutated (O1); '
       'random gates draw from the seeded generator with correct bounds (S, S5). Phase bookkeeping (Z4 arithmetic on runtime '
       'arrays) is value-level and NOT decided.',
       'Trusted: mutating-method vocabulary of H1; clifford_multiply(x,y)=y o x as documented in its source comment.',
       'structured forward typestate dataflow (may-mutated / must-reset) + table agreement by literal gate-matrix folding',
-      'DESIGN.md 4 (H, O), 5 C07')
+      'DESIGN.md 4 (H, O, MD1), 5 C07')
 claim('C19',
       'Decides, exhaustively for the 8 shipped codes, by abstract interpretation of the literal Clifford encoders in the stabilizer-'
       'tableau domain (Q4): every listed stabilizer string is in the stabilizer group of the encoder with sign +1 (fixes every code '
@@ -202,7 +213,9 @@ claim('C19',
       'holds below the distance. Also: the stabilizer-string parser appends the fixed Pauli of each letter in both arms (Q1), '
       'make_error_list enumerates each weight-w Pauli exactly once by construction (Q2), name/strings literals agree (Q3), the KL '
       'custom backward follows the adjoint discipline (A); the count loops of make_asymmetric_error_set reach every free qubit (Q5, polynomial '
-      'identity of the bound). The weighted-bound arithmetic and weight enumerators are NOT decided.',
+      'identity of the bound); the weight enumerators are normalised by the code dimension read before zero-padding (Q6); containers modified '
+      'inside a loop are created in that loop (AL1: no Pauli factor leaks from one generated error into the next). The weighted-bound '
+      'arithmetic and the enumerator sums themselves are NOT decided.',
       'Assumes the simulator applies a recorded gate as the operator of its registry entry (D2 ties names to operators; the '
       'embedding itself is C03). Gate conjugation tables are derived from the literal gate matrices.',
       'abstract interpretation of literal straight-line gate programs over the Pauli tableau domain; finite exhaustive enumeration of errors below d',
